@@ -45,7 +45,7 @@ CHECKS = {
     "C09": (
         True,
         "Lean 4 model of numpy's little-endian integer and IEEE binary16/32/64 encodings (exact nearest-even narrowing) + Spec.C09.holds + exhaustive correspondence over all int16 values and all float16 patterns every run",
-        "Theorems: integer bijection for every width (decode_encode, encode_decode), widths (table regenerated from the code), Props.C09.line_main (the whole of Spec.C09.holds — record width, blank gaps, every field's bytes in its own span, canonical read-back — for every disjoint layout under the per-field binary law BinLaw), BinLaw proved for in-range integers, ASCII literals and missing values. BinLaw for floats (IEEE narrowing, bit-field inverse), non-ASCII literals and dates: evaluated per case; all 65 536 float16 / int16 patterns every run.",
+        "Theorems: integer bijection for every width (decode_encode, encode_decode), widths (table regenerated from the code), Props.C09.line_main (the whole of Spec.C09.holds — record width, blank gaps, every field's bytes in its own span, canonical read-back — for every disjoint layout under the per-field binary law BinLaw), BinLaw proved for in-range integers, ASCII literals, floats (IEEE narrowing, bit-field inverse: Props/C09F.lean), dates (Props/C09D.lean: the bytes are the ASCII text of the C01 date law) and missing values; Props.C09.main_all: the whole of Spec.C09.holds for every admitted layout. BinLaw for non-ASCII literals: evaluated per case; all 65 536 float16 / int16 patterns every run.",
         "Trusted: Lean kernel; model lean/Cfi/Bin.lean compared with numpy on every case (all 2-byte patterns exhaustively, halfway cases, subnormals, overflow); little-endian byte order asserted at start-up.",
         "6/C09",
     ),
@@ -80,7 +80,7 @@ CHECKS = {
     "C10": (
         True,
         "Lean 4 model of Register.write/matches/read in the three storages over a stream + Spec.C10.holds (recognition, identifier columns, one line / exact byte width, canonical read-back, tell() = partial sums) + differential correspondence on streams of 1-8 mixed registers",
-        "Theorems Props.C10.text_positional, text_delimited, text_mixed and binary: for every stream of registers in each storage the model's write-all / rewind / read-all run through one buffer satisfies the whole of Spec.C10.holds (one line resp. identifier width + field widths bytes, identifier columns / first token / bytes, recognised by its own type, canonical read-back, stream position after each read = end of what the write produced), under the per-field laws (proved for integers, literals, dates, missing values; floats: read half proved, binary law per case); binary contiguity is stated up to declaration order. Spec.C10.holds is evaluated on every generated stream on the implementation and on the model.",
+        "Theorems Props.C10.text_positional, text_delimited, text_mixed and binary: for every stream of registers in each storage the model's write-all / rewind / read-all run through one buffer satisfies the whole of Spec.C10.holds (one line resp. identifier width + field widths bytes, identifier columns / first token / bytes, recognised by its own type, canonical read-back, stream position after each read = end of what the write produced), under the per-field laws (proved for integers, literals, dates, floats and missing values; Props.C10.binary_nodate / binary_all: binary storage with the field law discharged from the C09 domain, dates included); binary contiguity is stated up to declaration order. Spec.C10.holds is evaluated on every generated stream on the implementation and on the model.",
         'Trusted: Lean kernel; model; contiguous binary layouts (in any declaration order) and ASCII identifiers (domain).',
         "6/C10",
     ),
